@@ -24,6 +24,36 @@ IC = "wrath_header::inner_crypto::InnerCrypto"
 FLOORS = {"entry-points": 36, "derivation": 3, "direction": 5, "prga": 4, "ksa": 4, "keystream": 3, "state-writers": 2}
 
 
+def prga_closure(ctx):
+    """the PRGA step written as the closure of `core::iter::from_fn` inside a method of Rc4 that
+    hands out the keystream as an iterator: (closure path, method path) or None"""
+    fb = ctx.fb
+    out = []
+    for pth, b in fb.bodies.items():
+        if b.kind == "Closure" and (b.d.get("parent") or "").startswith("rc4::Rc4::"):
+            par = fb.bodies.get(b.d["parent"])
+            if par is None:
+                continue
+            for _, t in par.calls():
+                if (t.get("callee") or "") in ("std::iter::from_fn", "core::iter::from_fn"):
+                    out.append((pth, par.path))
+    out = sorted(set(out))
+    return out[0] if len(out) == 1 else None
+
+
+def is_keystream_iter(ctx, t, owner):
+    """t = from_fn(<the PRGA closure capturing exactly `owner` mutably>)"""
+    pc = prga_closure(ctx)
+    t = strip(t)
+    if pc is None or not util.is_call(t) or t[1] not in ("std::iter::from_fn", "core::iter::from_fn") or len(t[2]) != 1:
+        return False
+    cl = t[2][0]
+    if not (cl[0] == "agg" and cl[1] == "closure" and cl[2] == pc[0] and len(cl[4]) == 1):
+        return False
+    cap = cl[4][0]
+    return strip(cap) == strip(owner) or (cap[0] == "ref" and strip(cap[1]) == strip(owner))
+
+
 def applicable(feats):
     return "wrath-header" in feats
 
@@ -70,6 +100,28 @@ def check(ctx, rep):
                 amount = strip(v[1][2][kparam - 1]) if kparam - 1 < len(v[1][2]) else ("?",)
                 rep.check(amount[:2] == ("int", DROP), "derivation", fn, "drop-1024", "%s advances the keystream once per count; called with %d" % (v[1][1], DROP), "discarded prefix is %s steps, expected %d" % (show(amount, maxdepth=2), DROP), se.body.loc())
                 n = sum(1 for i in se.term_info.values() if i.get("k") == "call" and (i["name"] == "rc4::Rc4::apply_keystream" or skip_helper(ctx, i["name"]) is not None))
+                rep.check(n == 1, "derivation", fn, "single-drop", "exactly one discard", "%d keystream applications in the constructor" % n, se.body.loc())
+                good = True
+            # or: the keystream as an iterator, `inner.keystream().take(1024).for_each(drop)`: the
+            # closure behind it yields Some on every call (PRGA rule), so take(1024) runs it 1024 times
+            elif v[0] == "after" and util.is_call(v[1]) and v[1][1] in ("std::iter::from_fn", "core::iter::from_fn") and v[2] == 0 and util.is_call(v[3], "rc4::Rc4::new") and prga_closure(ctx) is not None:
+                key = util.bexpr(ctx, se, v[3][2][0])
+                want = ("HMAC", P(2), (P(1),))
+                rep.check(key == util.cb(want), "derivation", fn, "hmac-key", "RC4 key = all bytes of HMAC-SHA1(key = direction constant; session key)", "RC4 key is %s, expected HMAC-SHA1(key=arg2; arg1)" % show_b(key)[:300], se.body.loc())
+                ff = strip(v[1])
+                users = [i for i in se.term_info.values() if i.get("k") == "call" and any(strip(a) == ff for a in i["args"])]
+                takes = [i for i in users if i["name"] == "std::iter::Iterator::take"]
+                fe = []
+                amount = ("?",)
+                if len(users) == 1 and len(takes) == 1:
+                    amount = strip(takes[0]["args"][1])
+                    tk = strip(takes[0]["term"])
+                    fe = [i for i in se.term_info.values() if i.get("k") == "call" and i["name"].endswith("Iterator>::for_each") or i.get("k") == "call" and i["name"] == "std::iter::Iterator::for_each"]
+                    fe = [i for i in fe if strip(i["args"][0]) == tk and i["args"][1] in (("fn", "std::mem::drop"), ("fn", "core::mem::drop"))]
+                cl = ff[2][0]
+                own = cl[0] == "agg" and cl[1] == "closure" and cl[2] == prga_closure(ctx)[0] and len(cl[4]) == 1
+                rep.check(own and len(fe) == 1 and amount[:2] == ("int", DROP), "derivation", fn, "drop-1024", "keystream().take(%d).for_each(drop): %d PRGA steps discarded" % (DROP, DROP), "discarded prefix is not exactly %d steps of this cipher's keystream (take %s, %d consumers)" % (DROP, show(amount, maxdepth=2), len(fe)), se.body.loc())
+                n = sum(1 for i in se.term_info.values() if i.get("k") == "call" and (i["name"] in ("rc4::Rc4::apply_keystream", "std::iter::from_fn", "core::iter::from_fn") or skip_helper(ctx, i["name"]) is not None))
                 rep.check(n == 1, "derivation", fn, "single-drop", "exactly one discard", "%d keystream applications in the constructor" % n, se.body.loc())
                 good = True
         if not good:
@@ -119,6 +171,21 @@ def check(ctx, rep):
     # ---------------- PRGA
     fn = "rc4::Rc4::pseudo_random_generation"
     se = ctx.deep.run(fn)
+    prga_self = ("deref", ("param", 1))
+    prga_ret = None
+    if se is None and prga_closure(ctx) is not None:
+        # the step is the closure of the keystream iterator: it works on the Rc4 it captured
+        # (`*closure.0`) and yields Some(byte) on every call
+        fn = prga_closure(ctx)[0]
+        se = ctx.deep.run(fn)
+        prga_self = ("deref", ("field", ("deref", ("param", 1)), 0))
+        if se is not None:
+            r_ = strip(se.ret)
+            if r_[0] == "agg" and r_[2] == "std::option::Option" and r_[3] == 1:
+                prga_ret = r_[4][0]
+            else:
+                rep.violation("prga", fn, "always-some", "the keystream closure does not yield Some(byte) on every call: %s" % show(r_, maxdepth=2), se.body.loc())
+                se = None
     if se is None:
         rep.violation("prga", fn, "anchor", "not found")
     else:
@@ -130,12 +197,16 @@ def check(ctx, rep):
         if len(si) == 1 and len(cnt) == 2:
             # roles of the two counters: i is the one incremented by the constant 1
             eff = se.param_effects().get(1)
+            if prga_ret is not None:
+                # state of the captured cipher when the closure returns
+                fin = [st_.get(prga_self) for st_ in se.final_states.values() if prga_self in st_]
+                eff = fin[0] if len(fin) == 1 else None
             upd = {}
             t = eff
             while t is not None and t[0] == "upd" and t[2][0] == "f":
                 upd.setdefault(t[2][1], t[3])
                 t = t[1]
-            self_ = ("deref", ("param", 1))
+            self_ = prga_self
             fi = fj = None
             for c in cnt:
                 n = arith.norm(upd.get(c, ("?",)), {strip(("field", self_, c)): "c"})
@@ -152,7 +223,7 @@ def check(ctx, rep):
                 out = ("idx", S1, wadd(("idx", S1, i1), ("idx", S1, j1)))
                 nj = arith.norm(upd.get(fj, ("?",)), env)
                 nS = arith.norm(upd.get(si[0], ("?",)), env)
-                no = arith.norm(se.ret, env)
+                no = arith.norm(prga_ret if prga_ret is not None else se.ret, env)
                 rep.check(nj == j1, "prga", fn, "j-update", "j' = j +8 S[i']", "j update is %s, expected %s" % (arith.show(nj), arith.show(j1)), se.body.loc())
                 rep.check(nS == S1, "prga", fn, "swap", "S' = swap(S, i', j')", "state update is %s" % arith.show(nS)[:200], se.body.loc())
                 rep.check(no == out, "prga", fn, "output", "out = S'[S'[i'] +8 S'[j']]", "output byte is %s" % arith.show(no)[:300], se.body.loc())
@@ -176,7 +247,26 @@ def check(ctx, rep):
             trav = ini == ("param", 2) and "slice::IterMut" in (lp["resolved"] or "")
             elem_in = ("deref", lp["elem"])
             writes = [(k, v) for k, v in se.assigns.items() if v[0] == elem_in]
-            if trav and len(writes) == 1:
+            zipped = False
+            if util.is_call(ini, "std::iter::Iterator::zip") and len(ini[2]) == 2 and "iter::Zip" in (lp["resolved"] or ""):
+                # data.iter_mut().zip(self.keystream()): the data is asked first, so the closure runs
+                # once per data byte and not once more; byte k is xored with step k
+                left, right = strip(ini[2][0]), ini[2][1]
+                if util.is_call(left, "core::slice::<impl [T]>::iter_mut"):
+                    old = se.call_old.get((left[3][:2], 0))
+                    zipped = old == ("deref", ("param", 2)) and is_keystream_iter(ctx, right, ("param", 1))
+                if zipped:
+                    slot = ("deref", ("field", lp["elem"], 0))
+                    kb = ("field", lp["elem"], 1)
+                    ws = [(k, v) for k, v in se.assigns.items() if strip(v[0]) == strip(slot)]
+                    idom = cfg.dominators(body)
+                    uncond = len(ws) == 1 and all(cfg.dominates(idom, ws[0][0][0], t_) for t_, h_ in cfg.back_edges(body))
+                    val = strip(ws[0][1][1]) if len(ws) == 1 else ("?",)
+                    good = uncond and val[0] == "binop" and val[1] == "BitXor" and {strip(val[2]), strip(val[3])} == {strip(slot), strip(kb)}
+                    why = "byte ^= keystream item, the data on the left of the zip: one PRGA step per byte, in order" if good else "zip form: byte is written with %s" % show(val, maxdepth=3)
+            if zipped:
+                pass
+            elif trav and len(writes) == 1:
                 val = strip(writes[0][1][1])
                 # old ^ prga(self)
                 if val[0] == "binop" and val[1] == "BitXor":
@@ -199,6 +289,9 @@ def check(ctx, rep):
     # ---------------- state writers
     ws = ciphers.field_writers(fb, "rc4::Rc4")
     allowed = {"rc4::Rc4::new", "rc4::Rc4::key_scheduling_algorithm", "rc4::Rc4::pseudo_random_generation", "rc4::Rc4::key_scheduling_algorithm::{closure#1}", "rc4::Rc4::key_scheduling_algorithm::{closure#0}"}
+    pc = prga_closure(ctx)
+    if pc is not None and not ctx.has("rc4::Rc4::pseudo_random_generation"):
+        allowed |= {pc[0], pc[1]}           # the step closure and the method that wraps it in from_fn
     bad = [w for w in ws if w[1] in ("store", "mutborrow", "aggregate") and w[0] not in allowed]
     rep.check(not bad, "state-writers", "rc4::Rc4", "field-census", "RC4 state written only by new/KSA/PRGA", "RC4 state is written elsewhere: %s" % [(w[0], w[3]) for w in bad])
     nse = ctx.wrap.run("rc4::Rc4::new")
